@@ -367,13 +367,24 @@ class Sem:
                 raise SpecErr("Head of the empty sequence")
             return s[0]
         if o == "Tail":
+            if a[0][0] == "s" and self.strings_are_seqs:        # TLC: Tail("ab") = "b" (Head and Append refuse strings)
+                if not a[0][1]:
+                    raise SpecErr("Tail of the empty string")
+                return ("s", a[0][1][1:])
             s = as_seq(a[0])
             if not s:
                 raise SpecErr("Tail of the empty sequence")
             return ("T", s[1:])
         if o == "SubSeq":
-            if a[0][0] == "s":
-                raise Unknown("SubSeq of a string")
+            if a[0][0] == "s" and self.strings_are_seqs:        # TLC: SubSeq("abc",2,3) = "bc"
+                if not all(ord(c) < 128 for c in a[0][1]):
+                    raise Unknown("non-ASCII string")
+                m, n = as_int(a[1]), as_int(a[2])
+                if m > n:
+                    return ("s", "")
+                if m < 1 or n > len(a[0][1]):
+                    raise SpecErr("SubSeq out of range")
+                return ("s", a[0][1][m - 1:n])
             s = as_seq(a[0]); m, n = as_int(a[1]), as_int(a[2])
             if m > n:
                 return ("T", ())
